@@ -8,6 +8,7 @@ import (
 	"sort"
 	"strings"
 
+	"github.com/go-openapi/spec"
 	"github.com/go-openapi/validate"
 	rt "verif.local/rt"
 )
@@ -191,7 +192,12 @@ func computeOracle(op *Op, ll []*LLValidator, variant string) Outcome {
 			o.Recycle = false
 		}
 	}
-	env := &Env{}
+	// the oracle's spec validations share one process-wide meta-schema object (never reset: it only saves the 0.25 s of
+	// lazy $ref expansion per validation; the subject's own object starts unexpanded in every run)
+	if oracleMeta == nil {
+		oracleMeta = spec.MustLoadSwagger20Schema()
+	}
+	env := &Env{meta: oracleMeta}
 	switch op.Kind {
 	case KLLSchema:
 		o.Kind = KSchemaNR
@@ -211,6 +217,8 @@ func computeOracle(op *Op, ll []*LLValidator, variant string) Outcome {
 	ctx := &rt.OpCtx{UID: op.UID, Kind: kindNums[op.Kind], OrderSeed: op.OrderSeed, Oracle: true}
 	return env.Exec(&o, ctx)
 }
+
+var oracleMeta *spec.Schema
 
 var iterBase, iterPermBase uint64
 
